@@ -23,6 +23,7 @@ import (
 	"fmt"
 	"io/ioutil"
 	"net/http"
+	"strings"
 	"time"
 
 	"github.com/goccy/go-json"
@@ -86,6 +87,8 @@ func (c *CDCServer) getCDCHandler() http.Handler {
 			metrics.TaskRequestCountVec.WithLabelValues(metrics.UnknownTypeLabel, metrics.UnmarshalErrorStatusLabel).Inc()
 			return
 		}
+		// (the request type becomes a metric label, which has to be valid utf-8; such a type is unknown anyway)
+		cdcRequest.RequestType = strings.ToValidUTF8(cdcRequest.RequestType, "?")
 		metrics.TaskRequestCountVec.WithLabelValues(cdcRequest.RequestType, metrics.TotalStatusLabel).Inc()
 
 		response := c.handleRequest(cdcRequest, writer)
